@@ -605,7 +605,7 @@ func checkR02e(p *Prog, r *Report) {
 		return
 	}
 	r.Func(FuncName(sib))
-	rm := p.Rels(sib)
+	_ = sib
 	var usage *ssa.Parameter
 	for _, pa := range sib.Params {
 		if strings.HasSuffix(types.TypeString(pa.Type(), nil), "ExprValUsage") {
@@ -626,19 +626,40 @@ func checkR02e(p *Prog, r *Report) {
 			}
 		}
 	}
+	// the translations of return and break/continue may sit in stmtInBlock or in a helper it was split into: every
+	// call site in the translator is judged, with the usage parameter of the function it is in and the facts that
+	// function's callers establish
+	usageOf := func(g *ssa.Function) *ssa.Parameter {
+		for _, pa := range g.Params {
+			if strings.HasSuffix(types.TypeString(pa.Type(), nil), "ExprValUsage") {
+				return pa
+			}
+		}
+		return nil
+	}
+	factsAt := func(g *ssa.Function, in ssa.Instruction) relSet {
+		rs := p.RelsAt(p.Rels(g), in)
+		for k := range p.entryRels(g) {
+			rs[k] = true
+		}
+		return rs
+	}
 	check := func(calleeSuffix, constName, what string) {
 		n := 0
-		p.instrs(sib, func(b *ssa.BasicBlock, i int, in ssa.Instruction) {
-			c, ok := in.(*ssa.Call)
-			if !ok || !strings.HasSuffix(calleeName(c), calleeSuffix) {
-				return
-			}
-			n++
-			rs := p.RelsAt(rm, c)
-			want := eqRel(fmt.Sprint(consts[constName]), usage.Name())
-			r.Check("R02e", what+" only where its control effect is available", instrPos(in), rs[want],
-				fmt.Sprintf("%s is translated without the fact usage == %s (facts %v): the translation would run in a position where the effect does not end the function/loop iteration", what, constName, relList(rs)))
-		})
+		for _, g := range p.FuncsIn(Mod) {
+			p.instrs(g, func(b *ssa.BasicBlock, i int, in ssa.Instruction) {
+				c, ok := in.(*ssa.Call)
+				if !ok || !strings.HasSuffix(calleeName(c), calleeSuffix) {
+					return
+				}
+				n++
+				u := usageOf(g)
+				rs := factsAt(g, c)
+				okU := u != nil && rs[eqRel(fmt.Sprint(consts[constName]), u.Name())]
+				r.Check("R02e", what+" only where its control effect is available", instrPos(in), okU,
+					fmt.Sprintf("%s is translated without the fact usage == %s (facts %v): the translation would run in a position where the effect does not end the function/loop iteration", what, constName, relList(rs)))
+			})
+		}
 		if n == 0 {
 			r.Fail("R02e", what+" only where its control effect is available", sib.Pos(), "no translation of "+what+" found", "")
 		}
@@ -648,15 +669,17 @@ func checkR02e(p *Prog, r *Report) {
 	// elsewhere both reach a reporter
 	for _, nt := range []string{"ReturnStmt", "BranchStmt"} {
 		rej := false
-		p.instrs(sib, func(b *ssa.BasicBlock, i int, in ssa.Instruction) {
-			if c, ok := in.(*ssa.Call); ok {
-				if cal := calleeOf(&c.Call); cal != nil && p.NoReturn(cal) {
-					if hasFactContaining(p.RelsAt(rm, c), ".(*"+nt+")#1 == true") {
-						rej = true
+		for _, g := range p.FuncsIn(Mod) {
+			p.instrs(g, func(b *ssa.BasicBlock, i int, in ssa.Instruction) {
+				if c, ok := in.(*ssa.Call); ok {
+					if cal := calleeOf(&c.Call); cal != nil && p.NoReturn(cal) {
+						if hasFactContaining(factsAt(g, c), ".(*"+nt+")#1 == true") {
+							rej = true
+						}
 					}
 				}
-			}
-		})
+			})
+		}
 		r.Check("R02e", nt+" in any other position is rejected", sib.Pos(), rej, "no rejecting call under the type test for *ast."+nt)
 	}
 	// ifStmt: usage propagates into the then-branch with a non-empty remainder only when the branch must end in a control effect and there is no else
@@ -714,27 +737,65 @@ func checkR02e(p *Prog, r *Report) {
 	}
 	// the must-end-in-control-effect analysis itself
 	checkEndsWithReturn(p, r)
-	// finalisation in stmts is exhaustive
-	if st := p.Func(Mod, "Ctx.stmts"); st != nil {
-		r.Func(FuncName(st))
-		rmS := p.Rels(st)
-		seen := map[string]bool{}
-		p.instrs(st, func(b *ssa.BasicBlock, i int, in ssa.Instruction) {
-			c, ok := in.(*ssa.Call)
-			if !ok || calleeName(c) != coqPkg+".NewAnon" {
-				return
+	// finalisation is exhaustive: some function of the translator (stmts itself, or the helper it hands an
+	// unfinalised list of bindings to) appends the implicit control effect under each of the three usages, and does
+	// so only for a block that was not finalised
+	{
+		best, bestSeen := (*ssa.Function)(nil), map[string]bool{}
+		underFlag := false
+		for _, g := range p.FuncsIn(Mod) {
+			u := usageOf(g)
+			if u == nil {
+				continue
 			}
-			rs := p.RelsAt(rmS, c)
-			for n, v := range consts {
-				for k := range rs {
-					if k == eqRel(fmt.Sprint(v), "usage") && hasFactContaining(rs, "phi:finalized") {
+			rmG := p.Rels(g)
+			seen := map[string]bool{}
+			flag := false
+			p.instrs(g, func(b *ssa.BasicBlock, i int, in ssa.Instruction) {
+				c, ok := in.(*ssa.Call)
+				if !ok || calleeName(c) != coqPkg+".NewAnon" {
+					return
+				}
+				rs := p.RelsAt(rmG, c)
+				for n, v := range consts {
+					if rs[eqRel(fmt.Sprint(v), u.Name())] {
+						// the appended effect is a constant control expression, not a translated statement
+						if _, isCall := stripConv(c.Call.Args[0]).(*ssa.Call); isCall {
+							continue
+						}
 						seen[n] = true
+						if hasFactContaining(rs, "phi:finalized") {
+							flag = true
+						}
 					}
 				}
+			})
+			if len(seen) > len(bestSeen) {
+				best, bestSeen, underFlag = g, seen, flag
 			}
-		})
-		r.Check("R02e", "an unfinalised block is completed for every usage", st.Pos(), seen["ExprValReturned"] && seen["ExprValLoop"] && seen["ExprValLocal"],
-			fmt.Sprintf("finalisation cases found: %v (need unit return for Returned, Continue for Loop, unit for an empty Local block)", sortedKeys(seen)))
+		}
+		if best != nil && !underFlag {
+			// a helper: every call of it is made for an unfinalised block
+			n, okAll := 0, true
+			for _, g := range p.FuncsIn(Mod) {
+				p.instrs(g, func(b *ssa.BasicBlock, i int, in ssa.Instruction) {
+					if c, ok := in.(*ssa.Call); ok && calleeOf(&c.Call) == best {
+						n++
+						if !hasFactContaining(p.RelsAt(p.Rels(g), c), "finalized") {
+							okAll = false
+						}
+					}
+				})
+			}
+			underFlag = n > 0 && okAll
+		}
+		pos := sib.Pos()
+		if best != nil {
+			pos = best.Pos()
+			r.Func(FuncName(best))
+		}
+		r.Check("R02e", "an unfinalised block is completed for every usage", pos, bestSeen["ExprValReturned"] && bestSeen["ExprValLoop"] && bestSeen["ExprValLocal"] && underFlag,
+			fmt.Sprintf("finalisation cases found: %v, under the not-finalised fact: %v (need unit return for Returned, Continue for Loop, unit for an empty Local block)", sortedKeys(bestSeen), underFlag))
 	}
 }
 
